@@ -224,7 +224,7 @@ def run(ctx, replay=None):
     # ---- 4. tie + sweep ----
     t2 = time.time()
     results = tie.run_tie(progs, reports, {'spec_prefixes': cfg['spec'], 'sweep': bool(cfg['spec']),
-                                           'lost_probe': ctx.prop == 'C05', 'seed': ctx.seed, 'lost_tries': 3 if quick else 6})
+                                           'lost_probe': ctx.prop in ('C05', 'C06'), 'seed': ctx.seed, 'lost_tries': 4 if quick else 8})
     t_tie = time.time() - t2
     # ---- 5. decision ----
     stats = collections.Counter()
@@ -353,7 +353,7 @@ def run(ctx, replay=None):
                 new_viol += 1
                 break
     # C05: schedules that satisfy every Spec clause, pinned on the constraint system of /repo (lostprobe.py)
-    if ctx.prop == 'C05':
+    if ctx.prop in ('C05', 'C06'):
         lost_keys = collections.Counter()
         n_conf = 0
         for r in results:
@@ -375,7 +375,7 @@ def run(ctx, replay=None):
                     continue
                 if new_viol < int(os.environ.get('VERIF_MAX_REPLAYS', '3')):
                     path = common.write_replay(ctx, 'lost', {
-                        'kind': 'valid-schedule-lost', 'property': 'C05', 'key': key, 'program': terms.dump(progs[r['idx']]),
+                        'kind': 'valid-schedule-lost', 'property': ctx.prop, 'key': key, 'program': terms.dump(progs[r['idx']]),
                         'program_pretty': pretty(progs[r['idx']]), 'schedule': ls['pins'], 'rejected_by': cand.get('tags'),
                         'what': 'every Spec clause of the problem holds on this schedule (evaluated by vm_compute), and the constraint system built '
                                 'by /repo is unsatisfiable once the schedule is pinned (start / end / duration of acting tasks, flags, selections); '
